@@ -257,6 +257,133 @@ theorem C11_mcast_datagrams (w : World) (d : Dict)
     obtain ⟨_, _, _, hsz, _⟩ := reply_bytes w.recOf _ rfl hwf hfit pks hp
     rw [← h, asyncSend_all, sendLoop_fits _ _ _ _ _ _ hsz, flatMap_sendAll_group]
 
+/-! ## every datagram of every block of the host, as bytes -/
+
+/-- a record built at one of the seven sites, as a multicast message shows it: cache-flush bit iff not a PTR record, class IN -/
+theorem flushWire_built {k : RKind} {e : ERecord} (hk : builtBy k e = true) :
+    ((flushWire e).rclass ≥ 0x8000 ↔ (flushWire e).rtype ≠ 12) ∧ (flushWire e).rclass % 0x8000 = 1 := by
+  simp only [builtBy, Bool.and_eq_true, beq_iff_eq] at hk
+  obtain ⟨⟨ht, hcl⟩, hu⟩ := hk
+  obtain ⟨hun, hcls, _⟩ := C11_unique_iff_not_ptr k
+  simp only [flushWire, hu, hcl, hcls, ht]
+  cases hku : k.unique
+  · have : ¬ k.ctorType ≠ 12 := fun hne => by have := hun.mpr hne; rw [hku] at this; cases this
+    simp [this]
+  · have : k.ctorType ≠ 12 := hun.mp hku
+    simp [this]
+
+/-- per emitted datagram: what the strict decoder reads from it, for any reply content with the response + authoritative flags -/
+theorem content_packet (recOf : RecId → ERecord) (c : Content) (hflags : c.flags = 0x8400)
+    (hwf : WFMsg (c.msg recOf)) (hfit : FitAll (c.msg recOf)) (pks : List Bytes) (h : packets (c.msg recOf) = .ok pks) :
+    ∀ p ∈ pks, ∃ m, Strict.decode p = some m ∧ m.id = (if c.multicast then 0 else c.id) ∧ m.flags = 0x8400 ∧ m.authorities = [] ∧
+      (∀ q ∈ m.questions, ∃ x ∈ c.questions, q = x.onWire c.multicast) ∧
+      (∀ r ∈ m.answers ++ m.additionals, ∃ x ∈ c.answers ++ c.adds, r = (recOf x).onWire c.multicast 0) := by
+  obtain ⟨msgs, e, _, _, hall, s1, s2, s4⟩ := reply_bytes recOf c hflags hwf hfit pks h
+  intro p hp
+  have hm : Strict.decode p ∈ pks.map Strict.decode := List.mem_map_of_mem hp
+  rw [e, List.mem_map] at hm
+  obtain ⟨m, hmm, hdec⟩ := hm
+  obtain ⟨h1, h2, h3⟩ := hall m hmm
+  refine ⟨m, hdec.symm, h1, h2, h3, ?_, ?_⟩
+  · intro q hq
+    have : q ∈ msgs.flatMap (·.questions) := List.mem_flatMap.mpr ⟨m, hmm, hq⟩
+    rw [s1, List.mem_map] at this
+    obtain ⟨x, hx, rfl⟩ := this
+    exact ⟨x, hx, rfl⟩
+  · intro r hr
+    rw [List.mem_append] at hr
+    rcases hr with hr | hr
+    · have : r ∈ msgs.flatMap (·.answers) := List.mem_flatMap.mpr ⟨m, hmm, hr⟩
+      rw [s2, List.mem_map] at this
+      obtain ⟨x, hx, rfl⟩ := this
+      exact ⟨x, List.mem_append_left _ hx, rfl⟩
+    · have : r ∈ msgs.flatMap (·.additionals) := List.mem_flatMap.mpr ⟨m, hmm, hr⟩
+      rw [s4, List.mem_map] at this
+      obtain ⟨x, hx, rfl⟩ := this
+      exact ⟨x, List.mem_append_right _ hx, rfl⟩
+
+/-- **Every datagram of every block, as bytes.**  Take any accepted block of the host — a query arriving, a truncated-query timer, a queue
+flushing — from any state, on a host with any sockets.  Every datagram written to a socket in that block, encoded by C01's encoder
+(however it splits), is accepted by the strict RFC 1035 decoder with flags 0x8400 and no authority section, and
+
+* if it is a multicast message: id 0, **no question section**, and — the records being the responder's own — the cache-flush bit
+  **exactly on the records that are not PTR records**;
+* otherwise it is **on the receiving socket**, carries the id the model gave the unicast reply (the query's: `C11_unicast_reply`), and **no
+  cache-flush / QU bit** on any record or echoed question. -/
+theorem C11_block_wire (w : World) {h : Host} {e : Ev} {r : StepOut} {ds : List (Sent Content)}
+    (hs : step w h e = .ok (r, ds)) (hq : ∀ p, blockFirst h e = some p → w.QsOK p) :
+    ∀ d ∈ ds, WFMsg (d.packet.msg w.recOf) → FitAll (d.packet.msg w.recOf) →
+      ∀ pks, packets (d.packet.msg w.recOf) = .ok pks → ∀ p ∈ pks,
+        ∃ m, Strict.decode p = some m ∧ m.flags = 0x8400 ∧ m.authorities = [] ∧
+          (d.packet.multicast = true → m.id = 0 ∧ m.questions = [] ∧
+            (w.Built (d.packet.answers ++ d.packet.adds) → ∀ x ∈ m.answers ++ m.additionals, (x.rclass ≥ 0x8000 ↔ x.rtype ≠ 12))) ∧
+          (d.packet.multicast = false → d.sock = w.rx.id ∧ m.id = d.packet.id ∧
+            (∀ q ∈ m.questions, q.qclass < 0x8000) ∧ ∀ x ∈ m.answers ++ m.additionals, x.rclass < 0x8000) := by
+  obtain ⟨_, rfl⟩ := step_physical w hs hq
+  intro d hd hwf hfit pks hp p hpp
+  rw [List.mem_flatMap] at hd
+  obtain ⟨o, _, hd⟩ := hd
+  have hflags : d.packet.flags = 0x8400 := by
+    cases o with
+    | mcast a b =>
+      simp only [realize, List.mem_map] at hd
+      obtain ⟨s, _, rfl⟩ := hd; rfl
+    | ucast addr port id nq a b =>
+      simp only [realize] at hd
+      split at hd
+      · simp only [List.mem_singleton] at hd; rw [hd]
+      · cases hd
+  obtain ⟨m, hdec, hid, hfl, hau, hqs, hrs⟩ := content_packet w.recOf d.packet hflags hwf hfit pks hp p hpp
+  refine ⟨m, hdec, hfl, hau, ?_, ?_⟩
+  · intro hm
+    rw [hm] at hid hqs hrs
+    have hnoq : d.packet.questions = [] := by
+      cases o with
+      | mcast a b =>
+        simp only [realize, List.mem_map] at hd
+        obtain ⟨s, _, rfl⟩ := hd; rfl
+      | ucast addr port id nq a b =>
+        simp only [realize] at hd
+        split at hd
+        · simp only [List.mem_singleton] at hd; rw [hd] at hm; simp at hm
+        · cases hd
+    refine ⟨by simpa using hid, ?_, ?_⟩
+    · cases hmq : m.questions with
+      | nil => rfl
+      | cons q qs =>
+        obtain ⟨x, hx, _⟩ := hqs q (by rw [hmq]; simp)
+        rw [hnoq] at hx; cases hx
+    · intro hb x hx
+      obtain ⟨y, hy, rfl⟩ := hrs x hx
+      obtain ⟨k, _, hk⟩ := hb y hy
+      rw [onWire_multicast]
+      exact (flushWire_built hk).1
+  · intro hm
+    rw [hm] at hid hqs hrs
+    refine ⟨?_, by simpa using hid, ?_, ?_⟩
+    · cases o with
+      | mcast a b =>
+        simp only [realize, List.mem_map] at hd
+        obtain ⟨s, _, rfl⟩ := hd; simp at hm
+      | ucast addr port id nq a b =>
+        simp only [realize] at hd
+        split at hd
+        · simp only [List.mem_singleton] at hd; rw [hd]
+        · cases hd
+    · intro q hq'
+      obtain ⟨x, hx, rfl⟩ := hqs q hq'
+      have := hwf.questions x (by simpa [Content.msg] using hx)
+      simpa [EQuestion.onWire, Wire.Encode.wireClass] using this.2.2
+    · intro x hx
+      obtain ⟨y, hy, rfl⟩ := hrs x hx
+      rw [onWire_unicast]
+      rw [List.mem_append] at hy
+      rcases hy with hy | hy
+      · have := hwf.answers (w.recOf y, 0) (by rw [msg_answers]; exact List.mem_map.mpr ⟨y, hy, rfl⟩)
+        exact this.2.2.1
+      · have := hwf.additionals (w.recOf y) (by simp only [Content.msg]; exact List.mem_map.mpr ⟨y, hy, rfl⟩)
+        exact this.2.2.1
+
 /-! ## non-vacuity: a host with two services' worth of records answers a legacy query and flushes a batch; the bytes are computed
 by C01's encoder and read back by the strict decoder inside the kernel -/
 def wType : WName := [[95, 97], [95, 116, 99, 112], [108]]            -- _a._tcp.l
